@@ -8,7 +8,7 @@
 
   Positive theorems (the wire format itself is sound):
     size_exact, roundtrip, back_to_back, trunc_err, chunk_indep, chunked_roundtrip,
-    enc_bytes, recv_indep_fresh, recv_indep_clean.
+    enc_bytes, recv_indep_fresh, recv_indep_clean, bounded_alloc_partial.
   Negative theorems (the Go decoders/sizers as they are written violate the property; each
   has a harness probe exhibiting the same witness on the real code):
     size_exact_counterexample            EvaluationKey.BinarySize after Expand
@@ -16,12 +16,14 @@
     recv_indep_counterexample_metadata   Element.ReadFrom keeps a stale MetaData
     recv_indep_counterexample_seed       EvaluationKey.ReadFrom keeps a stale Seed
     recv_indep_counterexample_map        structs.Map.ReadFrom keeps old entries
+    bounded_alloc_counterexample         Vector.ReadFrom allocates what 8 input bytes announce
   What is NOT modelled (tested by probes only): bufio internals / single `Read` calls,
   the unbounded recursion of `buffer.ReadUint64Slice` on a short `buffer.Buffer`, allocation
   from unchecked lengths, `encoding/json` and `math/big` number texts.
 -/
 import Lattigo.Proofs.Codec
 import Lattigo.Proofs.CodecRecv
+import Lattigo.Proofs.CodecAlloc
 
 namespace Lattigo.C08
 open Lattigo.Codec
@@ -132,6 +134,34 @@ example : (decC u64 [[1], [], [0, 0], [0, 0, 0, 0, 0, 9]]).map (fun p => (p.1, p
 theorem enc_bytes (f : Fmt) (v : Val) (hf : FmtBytes f) (hv : ValBytes f v) : IsBytes (enc f v) :=
   enc_isBytes f v hf hv
 
+/-! ### allocation -/
+
+/- Full statement wanted by the property: "for EVERY input `bs`, every allocation request of
+   the decoder is bounded by a function of `bs.length`". It is false of the code as written
+   (`bounded_alloc_counterexample`); what holds is the statement for honest inputs. -/
+
+/-- **bounded_alloc_partial.** On the encoding of a well-typed value (followed by anything)
+    the decoder requests exactly the element counts present in the value. Gap to the full
+    statement: nothing bounds the requests on other inputs, because the Go code does not
+    compare a count with the input that is left before calling `make`. -/
+theorem bounded_alloc_partial (f : Fmt) (v : Val) (rest : List Nat) (h : WT f v) :
+    allocs f (enc f v ++ rest) = lens f v :=
+  allocs_honest f v rest h
+
+example : allocs ciphertext (enc ciphertext ctEx) = [2, 1, 2, 1, 2] := by
+  rw [← List.append_nil (enc ciphertext ctEx), bounded_alloc_partial _ _ _ ctEx_wt]; decide
+
+/-- **bounded_alloc_counterexample.** For every `n < 2^64` there is an 8-byte input on which
+    the decoder of `structs.Vector[uint64]` (utils/structs/vector.go:177) requests `n`
+    elements; the decode then fails (for `n > 0`), after the allocation. -/
+theorem bounded_alloc_counterexample (n : Nat) (hn : n < 256 ^ 8) :
+    ∃ bs, bs.length = 8 ∧ allocs (vecOf u64) bs = [n] ∧ (0 < n → dec (vecOf u64) bs = none) :=
+  ⟨leBytes 8 n, allocs_unchecked n hn⟩
+
+example : ∃ bs, bs.length = 8 ∧ allocs (vecOf u64) bs = [1099511627776] ∧
+    (0 < 1099511627776 → dec (vecOf u64) bs = none) :=
+  bounded_alloc_counterexample (2 ^ 40) (by decide)
+
 /-! ### the receiver -/
 
 /-- **recv_indep_fresh.** The Go decoder run on a freshly allocated object computes `dec`:
@@ -200,6 +230,8 @@ end Lattigo.C08
 #print axioms Lattigo.C08.chunk_indep
 #print axioms Lattigo.C08.chunked_roundtrip
 #print axioms Lattigo.C08.enc_bytes
+#print axioms Lattigo.C08.bounded_alloc_partial
+#print axioms Lattigo.C08.bounded_alloc_counterexample
 #print axioms Lattigo.C08.recv_indep_fresh
 #print axioms Lattigo.C08.recv_indep_clean
 #print axioms Lattigo.C08.recv_indep_counterexample_flags
